@@ -341,6 +341,17 @@ var specC12Stream = Register(&Spec[StreamCase]{
 				_ = x.Sum(nil)
 			}
 		}
+		// the bare hash.Hash behind a name is the standard library's
+		for _, algo := range c.Algos {
+			h, err := hashio.GetHash(algo)
+			if err != nil {
+				return errf("GetHash(%q): %v", algo, err)
+			}
+			h.Write(c.Data)
+			if got, want := hex.EncodeToString(h.Sum(nil)), trueDigest(algo, c.Data); got != want {
+				return errf("GetHash(%q) over %d bytes gives %s, true digest %s", algo, len(c.Data), got, want)
+			}
+		}
 		for i := range hashers {
 			if got, want := hex.EncodeToString(held[i]), trueDigest(c.Algos[i], c.Data); got != want {
 				return errf("hasher %d (%s): the digest handed out by Sum(nil) reads %s after %d more Sum(nil) calls on other hashers, true digest %s", i, c.Algos[i], got, len(hashers)-i+1, want)
@@ -378,6 +389,9 @@ var specC12Unknown = Register(&Spec[AlgoName]{
 		}
 		if h, err := hashio.NewHasher(c.Name); err == nil || h != nil {
 			return errf("NewHasher(%q) did not fail cleanly", c.Name)
+		}
+		if h, err := hashio.GetHash(c.Name); err == nil || h != nil {
+			return errf("GetHash(%q) did not fail cleanly", c.Name)
 		}
 		return nil
 	},
